@@ -8,7 +8,7 @@ from __future__ import annotations
 import re
 
 from sa.cfront import LIB_TUS
-from sa.expr import macro_args, strip, walk, estr, callee
+from sa.expr import macro_args, strip, walk, estr, callee, calls
 
 _ROW = re.compile(r"\bGET_2D_ROW\s*\(")
 
@@ -674,3 +674,250 @@ def out_unread(ctx, P, scope, rule="OUT-UNREAD", tus=None):
                        ("accepted: %s" % why if why else
                         "`%s` is filled by %s and never read: whatever the caller should do with it is not done" % (v, callee(cs[0]))))
     return n
+
+
+def guard_seqlen(ctx, P, rule="GUARD-SEQLEN"):
+    """Every guard that raises TSK_ERR_BAD_SEQUENCE_LENGTH rejects NaN and infinity as well as values <= 0."""
+    from sa.guards import find_guards
+    ctx.rule(rule, "a sequence length is a finite positive number: every guard that raises TSK_ERR_BAD_SEQUENCE_LENGTH (the integrity "
+                   "gate and the file reader) evaluates to TRUE when the value is NaN and when it is +infinity (`L <= 0` is false for "
+                   "both; a NaN length makes an edgeless collection a tree sequence with no trees, an infinite one puts a breakpoint "
+                   "at inf)")
+
+    def ev(n, mode):
+        n = strip(n)
+        if n is None:
+            return None
+        if n.k == "UnaryOperator" and n.op == "!":
+            v = ev(n.kids[0], mode)
+            return None if v is None else (not v)
+        if n.k == "BinaryOperator" and n.op in ("||", "&&"):
+            a, b = ev(n.kids[0], mode), ev(n.kids[1], mode)
+            if n.op == "||":
+                return True if (a is True or b is True) else False if (a is False and b is False) else None
+            return False if (a is False or b is False) else True if (a is True and b is True) else None
+        if n.k == "BinaryOperator" and n.op in ("<", "<=", ">", ">=", "==", "!="):
+            l, r = estr(n.kids[0]), estr(n.kids[1])
+            lx, rx = bool(re.search(r"sequence_length|\bL\b", l)), bool(re.search(r"sequence_length|\bL\b", r))
+            if lx == rx:
+                return None
+            if mode == "nan":
+                return n.op == "!="
+            op = n.op if lx else {"<": ">", "<=": ">=", ">": "<", ">=": "<=", "==": "==", "!=": "!="}[n.op]
+            return op in (">", ">=", "!=")          # +inf compared with a finite value
+        if n.k == "CallExpr":
+            c = callee(n) or ""
+            if re.search(r"sequence_length|\bL\b", " ".join(estr(a) for a in n.kids[1:])):
+                if "isfinite" in c:
+                    return False
+                if "isnan" in c:
+                    return mode == "nan"
+        return None
+    n = 0
+    for key in ("tables", "trees"):
+        tu = P.tus[key]
+        for fn in tu.funcs.values():
+            if fn.body is None:
+                continue
+            for k, g in enumerate(g_ for g_ in find_guards(P, fn) if "TSK_ERR_BAD_SEQUENCE_LENGTH" in g_.codes):
+                cond = g.ifn.kids[0]
+                vn, vi = ev(cond, "nan"), ev(cond, "inf")
+                n += 1
+                ok = vn is True and vi is True
+                ctx.ob(rule, "%s@%d" % (fn.name, k), ok, tu.loc(g.ifn),
+                       "`%s` rejects NaN and infinity" % " ".join(tu.src(cond).split())[:60] if ok else
+                       "`%s` is %s for NaN and %s for +inf: a %s sequence length is accepted" % (
+                           " ".join(tu.src(cond).split())[:60], vn, vi, "NaN" if vn is not True else "infinite"))
+    ctx.ob(rule, "instances", n >= 2, "c/tskit/tables.c", "%d BAD_SEQUENCE_LENGTH guards analysed" % n)
+    return n
+
+
+def use_count(ctx, P, scope, rule="USE-COUNT", tus=None):
+    """Engler-style contradiction: a per-element use counter (`used[e]++`) whose value is tested before SOME increments
+    (`if (used[e] != 1) error`) is tested before all of them; the untested increment relies on a belief the tested ones check."""
+    ctx.rule(rule, "a per-element use counter is checked at every increment: if a function tests `X[e]` against its expected count "
+                   "before one `X[e]++`, it does so before each (in the same block, same subscript); an increment without the test "
+                   "accepts an element used twice – in the tree-integrity sweep, a removal order that names one edge several times")
+    n = 0
+    for key in (tus or LIB_TUS):
+        tu = P.tus[key]
+        for fn in tu.funcs.values():
+            if fn.body is None or not scope(key, fn.name):
+                continue
+            incs = []
+            for blk in walk(fn.body):
+                if blk.k != "CompoundStmt":
+                    continue
+                kids = [k for k in (blk.kids or []) if k is not None]
+                for i, s in enumerate(kids):
+                    s0 = strip(s)
+                    if s0 is not None and s0.k == "UnaryOperator" and s0.op in ("++", "post++", "pre++") or \
+                            (s0 is not None and s0.k == "UnaryOperator" and "++" in (s0.op or "")):
+                        t = strip(s0.kids[0])
+                        if t is not None and t.k == "ArraySubscriptExpr":
+                            arr, idx = estr(t.kids[0]), estr(t.kids[1])
+                            tested = any(k.k == "IfStmt" and re.search(r"\b%s\s*\[\s*%s\s*\]\s*(!=|==|>|<)" % (re.escape(arr), re.escape(idx)),
+                                                                      " ".join(tu.src(k.kids[0]).split())) for k in kids[:i])
+                            incs.append((arr, idx, tested, s))
+            by_arr = {}
+            for arr, idx, tested, s in incs:
+                by_arr.setdefault(arr, []).append((idx, tested, s))
+            for arr, lst in by_arr.items():
+                if not any(t for _, t, _ in lst):
+                    continue        # a plain counter, never compared: not a use counter
+                for k, (idx, tested, s) in enumerate(lst):
+                    n += 1
+                    ctx.ob(rule, "%s|%s@%d" % (fn.name, arr, k), tested, tu.loc(s),
+                           "`%s[%s]` is compared with its expected count before this increment" % (arr, idx) if tested else
+                           "`%s[%s]++` without the test its sibling increments have: an element counted twice is accepted here" % (arr, idx))
+    return n
+
+
+def alias_guard(ctx, P, scope, rule="ALIAS-GUARD", tus=None):
+    """f(T *self, const T *other, …) that appends to self while it reads other must refuse self == other."""
+    ctx.rule(rule, "a library function with a mutable `self` and a `const` `other` of the SAME struct type that adds rows to self "
+                   "(…_add_row / …_extend / …_append_columns on self or a table of self) tests `self == other` first: read loops "
+                   "bounded by other's row counts never end, and arrays sized from them overflow, when the rows they append are "
+                   "other's own (the eight tsk_<T>_table_extend functions do; any sibling that does not is reported)")
+    n = 0
+    for key in (tus or LIB_TUS):
+        tu = P.tus[key]
+        for fn in tu.funcs.values():
+            if fn.body is None or not scope(key, fn.name) or len(fn.params) < 2 or getattr(fn, "static", False):
+                continue        # static helpers are reached only through the public entry, which carries the test
+            p0, p1 = fn.params[0], fn.params[1]
+            t0 = (p0.ty or "").replace("const ", "").strip()
+            t1 = (p1.ty or "").strip()
+            if p0.name != "self" or p1.name != "other" or "const" in (p0.ty or "") or "const" not in t1 or t1.replace("const ", "").strip() != t0:
+                continue
+            src = " ".join(tu.src(fn.body).split())
+            appends = re.search(r"_(add_row|extend|append_columns)\(\s*&?\s*self\b", src) is not None
+            if not appends:
+                continue
+            n += 1
+            ok = re.search(r"self\s*==\s*other|other\s*==\s*self", src) is not None
+            ctx.ob(rule, fn.name, ok, tu.loc(fn.node), "refuses self == other" if ok else
+                   "%s appends to self while reading other and never tests self == other" % fn.name)
+    return n
+
+
+ALLOCATORS = {"tsk_malloc", "tsk_calloc", "tsk_realloc", "malloc", "calloc", "realloc", "PyMem_Malloc", "PyMem_Realloc", "PyDataMem_NEW",
+              "tsk_blkalloc_get"}
+
+
+def alloc_err(ctx, P, scope, rule="ALLOC-ERR", tus=None):
+    """Every NULL test of an allocation result leaves the function with an error: the NULL branch reaches no return without an
+    error having been set (ret = <error>, PyErr_NoMemory(), handle_library_error) and does not fall through to the code that
+    uses the pointer.  Allocator wrappers (functions that return the pointer) are exempt: their callers are checked instead,
+    the wrappers being added to the allocator set."""
+    from sa.cfg import CFG
+    ctx.rule(rule, "an allocation failure is reported: on the branch where the result of tsk_malloc / tsk_calloc / tsk_realloc / "
+                   "PyMem_Malloc / tsk_blkalloc_get (or of a pointer-returning wrapper of one) is NULL, every path to a return "
+                   "passes an assignment of an error to `ret` (or PyErr_NoMemory / handle_library_error), unless `ret` was "
+                   "initialised to an error, and the branch does not fall through to the code after the test (which would use "
+                   "the NULL pointer).  A `goto out` with ret == 0 makes the caller continue with a NULL array")
+    n = 0
+    for key in (tus or LIB_TUS):
+        tu = P.tus[key]
+        # pointer-returning wrappers of allocators, transitively
+        alloc = set(ALLOCATORS)
+        changed = True
+        while changed:
+            changed = False
+            for f in tu.funcs.values():
+                if f.body is None or f.name in alloc or "*" not in (getattr(f, "ret", None) or tu.src(f.node).split(f.name)[0]):
+                    continue
+                if any(callee(c) in alloc for c in calls(f.body)) and re.search(r"alloc", f.name):
+                    alloc.add(f.name)
+                    changed = True
+        for fn in tu.funcs.values():
+            if fn.body is None or not scope(key, fn.name) or fn.name in alloc:
+                continue
+            sites = {}
+            for x in walk(fn.body):
+                if x.k == "BinaryOperator" and x.op == "=":
+                    r = strip(x.kids[1])
+                    if r is not None and r.k == "CallExpr" and callee(r) in alloc:
+                        sites.setdefault(" ".join(tu.src(x.kids[0]).split()), []).append(x)
+                elif x.k == "VarDecl" and x.kids:
+                    r = strip(x.kids[-1])
+                    if r is not None and r.k == "CallExpr" and callee(r) in alloc:
+                        sites.setdefault(x.name, []).append(x)
+            if not sites:
+                continue
+            cfg = CFG(fn)
+            rets = [c for c in cfg.nodes if c.kind == "stmt" and c.ast is not None and c.ast.k == "ReturnStmt"]
+
+            def sets_err(c):
+                if c.ast is None or c.kind not in ("stmt", "cond"):
+                    return False
+                t = " ".join(tu.src(c.ast).split())
+                if "PyErr_NoMemory" in t or "handle_library_error" in t or "PyErr_Set" in t:
+                    return True
+                m = re.search(r"\bret\s*=\s*([^;]+)", t)
+                return m is not None and m.group(1).strip() not in ("0", "NULL") and not t.startswith("if")
+            errn = [c for c in cfg.nodes if sets_err(c)]
+            init = None
+            for d in walk(fn.body):
+                if d.k == "VarDecl" and d.name == "ret" and d.kids:
+                    init = " ".join(tu.src(d.kids[-1]).split())
+            k = 0
+
+            def null_var(c):
+                if c.kind != "cond" or c.ast is None:
+                    return None
+                t = " ".join(tu.src(c.ast).split()).strip("()").strip()
+                m = re.fullmatch(r"(.+?)\s*==\s*NULL|NULL\s*==\s*(.+)", t)
+                return (m.group(1) or m.group(2)).strip() if m else None
+            # the tests that examine an allocation: the first NULL tests of the variable reachable from the allocating node
+            first_tests = set()
+            for var, alist in sites.items():
+                for a in alist:
+                    starts = [c for c in cfg.nodes if c.ast is not None and c.kind in ("stmt", "cond") and any(y is a for y in walk(c.ast))]
+                    seen, todo = set(), list(starts)
+                    while todo:
+                        c = todo.pop()
+                        if c in seen:
+                            continue
+                        seen.add(c)
+                        if c not in starts and null_var(c) == var:
+                            first_tests.add((c, var))
+                            continue
+                        if c not in starts and c.ast is not None and c.kind == "stmt" and re.match(r"%s\s*=[^=]" % re.escape(var), " ".join(tu.src(c.ast).split())):
+                            continue        # re-assigned before any test
+                        todo.extend(s_ for s_, _ in c.succ)
+            for c in cfg.nodes:
+                var = null_var(c)
+                if var is None or (c, var) not in first_tests:
+                    continue
+                nulls = [s for s, lab in c.succ if lab is True]
+                cont = [s for s, lab in c.succ if lab is False]
+                n += 1
+                why = None
+                if init in (None, "0", "NULL"):
+                    for s in nulls:
+                        if s in errn:
+                            continue
+                        p = cfg.find_path(s, set(rets), avoid=errn)
+                        if p:
+                            why = "the NULL branch returns without setting an error (ret stays %s)" % (init or "unset")
+                            break
+                if why is None and cont:
+                    # chained `a == NULL || b == NULL` tests share their NULL target; only the last link has a real continuation
+                    for s in nulls:
+                        if s in cont:
+                            continue
+                        reach = cfg.reach(s, avoid=[x for x in cfg.nodes if x.kind == "join" and x.note and "label" in x.note])
+                        real = [x for x in cont if x.kind != "cond" or _null_cond(tu, x) is None]
+                        if any(x in reach for x in real) and s.kind != "cond":
+                            why = "the NULL branch falls through to the code after the test, which uses `%s`" % var
+                            break
+                ctx.ob(rule, "%s|%s@%d" % (fn.name, var, k), why is None, tu.loc(c.ast),
+                       "a NULL `%s` leaves %s with an error" % (var, fn.name) if why is None else why)
+                k += 1
+    return n
+
+
+def _null_cond(tu, node):
+    t = " ".join(tu.src(node.ast).split()).strip("()").strip() if node.ast is not None else ""
+    return True if re.fullmatch(r".+?\s*==\s*NULL|NULL\s*==\s*.+", t) else None
